@@ -447,4 +447,266 @@ theorem setValue_inv (se : TTEnc) (sd : TTDec) (w h x y v : Nat) (hinv : Inv se 
     | false => rfl
     | true => have := a2 hk; have := hlow n; omega
 
+/-! ### add-ons used by the packet-header composition -/
+
+theorem encLoop_low_le (v t : Nat) : ∀ fuel low k, (encLoop v t fuel low k).2.1 ≤ max low t ∧ low ≤ (encLoop v t fuel low k).2.1 := by
+  intro fuel
+  induction fuel with
+  | zero => intro low k; simp [encLoop]; omega
+  | succ f ih =>
+    intro low k
+    unfold encLoop
+    by_cases h1 : low < t
+    · by_cases h2 : low ≥ v
+      · cases k <;> simp [h1, h2] <;> omega
+      · have := ih (low + 1) k
+        simp only [h1, if_true, h2, if_false]
+        omega
+    · simp [h1]; omega
+
+theorem encNode_val (s : TTEnc) (n : Node) (lowIn t : Nat) : (encNode s n lowIn t).1.val = s.val := rfl
+
+theorem encodePath_val (t : Nat) : ∀ (path : List Node) (s : TTEnc) (lowIn : Nat), (s.encodePath t path lowIn).1.val = s.val := by
+  intro path
+  induction path with
+  | nil => intro s lowIn; rfl
+  | cons n tl ih => intro s lowIn; unfold TTEnc.encodePath; simp only []; rw [ih]; rfl
+
+/-- `low` never exceeds the largest threshold used so far -/
+theorem encodePath_low_bound (t B : Nat) (ht : t ≤ B) : ∀ (path : List Node) (s : TTEnc) (lowIn : Nat),
+    (∀ n, s.low n ≤ B) → lowIn ≤ B → ∀ n, (s.encodePath t path lowIn).1.low n ≤ B := by
+  intro path
+  induction path with
+  | nil => intro s lowIn h _ n; exact h n
+  | cons a tl ih =>
+    intro s lowIn h hl
+    unfold TTEnc.encodePath
+    simp only []
+    have hb := encLoop_low_le (s.val a) t (t + 1 - (if lowIn > s.low a then lowIn else s.low a))
+      (if lowIn > s.low a then lowIn else s.low a) (s.known a)
+    have h0 : (if lowIn > s.low a then lowIn else s.low a) ≤ B := by
+      have := h a
+      split <;> omega
+    apply ih
+    · intro m
+      show (upd s.low a _) m ≤ B
+      unfold upd
+      split
+      · show (encLoop (s.val a) t _ _ _).2.1 ≤ B; omega
+      · exact h m
+    · show (encLoop (s.val a) t _ _ _).2.1 ≤ B; omega
+
+theorem ttStack_level : ∀ (k lvl px py : Nat) (n : Node), n ∈ ttStack k lvl px py →
+    lvl ≤ n.1 ∧ (n.1 = lvl → n = (lvl, px, py)) := by
+  intro k
+  induction k with
+  | zero => intro lvl px py n h; simp [ttStack] at h
+  | succ k ih =>
+    intro lvl px py n h
+    unfold ttStack at h
+    rcases List.mem_cons.mp h with h | h
+    · subst h; exact ⟨Nat.le_refl _, fun _ => rfl⟩
+    · have := ih (lvl + 1) (px / 2) (py / 2) n h
+      exact ⟨by omega, fun e => by omega⟩
+
+theorem ttNumLevels_pos (w h : Nat) : 1 ≤ ttNumLevels w h := by
+  unfold ttNumLevels
+  cases hh : w + h with
+  | zero => simp [ttLevels]
+  | succ f => unfold ttLevels; split <;> simp
+
+theorem ttPath_last (w h x y : Nat) : (ttPath w h x y).getLast? = some (0, x, y) := by
+  unfold ttPath
+  obtain ⟨k, hk⟩ : ∃ k, ttNumLevels w h = k + 1 := ⟨ttNumLevels w h - 1, by have := ttNumLevels_pos w h; omega⟩
+  rw [hk, stack_cons, List.getLast?_reverse]; rfl
+
+/-- other leaves are not on the stack of leaf (x, y) -/
+theorem leaf_not_in_stack (L x y x' y' : Nat) (hne : (x', y') ≠ (x, y)) : (0, x', y') ∉ ttStack L 0 x y := by
+  intro h
+  have := (ttStack_level L 0 x y (0, x', y') h).2 rfl
+  simp at this; exact hne (by simp [this.1, this.2])
+
+theorem setValueStack_notin (v : Nat) : ∀ (st : List Node) (val : Node → Nat) (n : Node), n ∉ st →
+    setValueStack val v st n = val n := by
+  intro st
+  induction st with
+  | nil => intro val n _; rfl
+  | cons a tl ih =>
+    intro val n hn
+    have hna : n ≠ a := fun e => hn (by simp [e])
+    have hnt : n ∉ tl := fun e => hn (by simp [e])
+    unfold setValueStack
+    split
+    · rw [ih _ n hnt]; simp [upd, hna]
+    · rfl
+
+theorem setValueStack_head (v : Nat) (a : Node) (tl : List Node) (val : Node → Nat) (ha : a ∉ tl) :
+    setValueStack val v (a :: tl) a = min (val a) v := by
+  unfold setValueStack
+  split
+  · next h => rw [setValueStack_notin v tl _ a ha]; simp [upd]; omega
+  · next h => omega
+
+theorem stack_head_notin (k x y : Nat) : (0, x, y) ∉ ttStack k 1 (x / 2) (y / 2) := by
+  intro h; have := (ttStack_level k 1 (x / 2) (y / 2) (0, x, y) h).1; simp at this
+
+/-- SetValue(x, y, v): the leaf gets min(old, v), every other leaf keeps its value -/
+theorem setValue_leaf (s : TTEnc) (w h x y v : Nat) :
+    (s.setValue w h x y v).val (0, x, y) = min (s.val (0, x, y)) v ∧
+    ∀ x' y', (x', y') ≠ (x, y) → (s.setValue w h x y v).val (0, x', y') = s.val (0, x', y') := by
+  rw [setValue_val_eq]
+  obtain ⟨k, hk⟩ : ∃ k, ttNumLevels w h = k + 1 := ⟨ttNumLevels w h - 1, by have := ttNumLevels_pos w h; omega⟩
+  constructor
+  · rw [hk, stack_cons]; exact setValueStack_head v _ _ _ (stack_head_notin k x y)
+  · intro x' y' hne
+    exact setValueStack_notin v _ _ _ (leaf_not_in_stack _ x y x' y' hne)
+
+theorem setValue_low_known (s : TTEnc) (w h x y v : Nat) :
+    (s.setValue w h x y v).low = s.low ∧ (s.setValue w h x y v).known = s.known := ⟨rfl, rfl⟩
+
+/-! ### thresholds above the value are all the same to the encoder -/
+
+theorem encLoop_resolved (v t : Nat) : ∀ fuel low k, low ≤ v → v < t → v + 1 ≤ fuel + low →
+    encLoop v t fuel low k = (List.replicate (v - low) false ++ (if k then [] else [true]), v, true) := by
+  intro fuel
+  induction fuel with
+  | zero => intro low k h1 h2 h3; omega
+  | succ f ih =>
+    intro low k h1 h2 h3
+    unfold encLoop
+    have hlt : low < t := by omega
+    by_cases hge : low ≥ v
+    · have : low = v := by omega
+      subst this
+      cases k <;> simp [hlt]
+    · simp only [hlt, if_true, hge, if_false]
+      rw [ih (low + 1) k (by omega) h2 (by omega)]
+      have : v - low = (v - (low + 1)) + 1 := by omega
+      rw [this, List.replicate_succ]; simp
+
+theorem encNode_thr (s : TTEnc) (n : Node) (lowIn t1 t2 : Nat) (h1 : s.val n < t1) (h2 : s.val n < t2)
+    (hin : lowIn ≤ s.val n) (hl : s.low n ≤ s.val n) : encNode s n lowIn t1 = encNode s n lowIn t2 := by
+  unfold encNode
+  have h0 : (if lowIn > s.low n then lowIn else s.low n) ≤ s.val n := by split <;> omega
+  simp only []
+  rw [encLoop_resolved _ t1 _ _ _ h0 h1 (by omega), encLoop_resolved _ t2 _ _ _ h0 h2 (by omega)]
+
+/-- a query whose path values all lie below both thresholds is encoded identically under either threshold
+    (the encoder writes zero-bit-plane trees with threshold 999, the decoder reads them with 32) -/
+theorem encodePath_thr (t1 t2 : Nat) : ∀ (path : List Node) (s : TTEnc) (lowIn : Nat),
+    (∀ n ∈ path, s.val n < t1 ∧ s.val n < t2 ∧ s.low n ≤ s.val n) → HeapPath s.val path →
+    (∀ n, path.head? = some n → lowIn ≤ s.val n) → path.Nodup →
+    s.encodePath t1 path lowIn = s.encodePath t2 path lowIn := by
+  intro path
+  induction path with
+  | nil => intro s lowIn _ _ _ _; rfl
+  | cons a tl ih =>
+    intro s lowIn hall hheap hlow hnd
+    obtain ⟨ha1, ha2, ha3⟩ := hall a (by simp)
+    have hin := hlow a (by simp)
+    unfold TTEnc.encodePath
+    simp only []
+    rw [encNode_thr s a lowIn t1 t2 ha1 ha2 hin ha3]
+    have hnd' := List.nodup_cons.mp hnd
+    have hval : (encNode s a lowIn t2).1.val = s.val := rfl
+    have hout : (encNode s a lowIn t2).2.2 ≤ s.val a := by
+      unfold encNode
+      have h0 : (if lowIn > s.low a then lowIn else s.low a) ≤ s.val a := by split <;> omega
+      simp only []
+      rw [encLoop_resolved _ t2 _ _ _ h0 ha2 (by omega)]
+      exact Nat.le_refl _
+    rw [ih (encNode s a lowIn t2).1 (encNode s a lowIn t2).2.2 ?_ ?_ ?_ hnd'.2]
+    · intro n hn
+      obtain ⟨b1, b2, b3⟩ := hall n (by simp [hn])
+      have hna : n ≠ a := fun e => hnd'.1 (e ▸ hn)
+      refine ⟨by rw [hval]; exact b1, by rw [hval]; exact b2, ?_⟩
+      rw [hval]
+      show (upd s.low a _) n ≤ s.val n
+      simp [upd, hna]; exact b3
+    · rw [hval]
+      cases tl with
+      | nil => trivial
+      | cons m tl' => exact hheap.2
+    · intro m hm
+      rw [hval]
+      cases tl with
+      | nil => simp at hm
+      | cons m' tl' =>
+        simp at hm; subst hm
+        exact Nat.le_trans hout hheap.1
+
+/-! ### one leaf query, packaged -/
+
+theorem ttStack_nodup : ∀ (k lvl px py : Nat), (ttStack k lvl px py).Nodup := by
+  intro k
+  induction k with
+  | zero => intros; simp [ttStack]
+  | succ k ih =>
+    intro lvl px py
+    rw [stack_cons, List.nodup_cons]
+    refine ⟨?_, ih _ _ _⟩
+    intro h
+    have := (ttStack_level k (lvl + 1) (px / 2) (py / 2) _ h).1
+    simp at this
+    omega
+
+theorem nodup_reverse' {α : Type} {l : List α} (h : l.Nodup) : l.reverse.Nodup := by
+  unfold List.Nodup at *
+  rw [List.pairwise_reverse]
+  exact h.imp (fun hab => fun e => hab e.symm)
+
+theorem ttPath_nodup (w h x y : Nat) : (ttPath w h x y).Nodup := by
+  unfold ttPath; exact nodup_reverse' (ttStack_nodup _ _ _ _)
+
+theorem heap_le_last (val : Node → Nat) : ∀ (path : List Node) (l : Node), HeapPath val path →
+    path.getLast? = some l → ∀ n ∈ path, val n ≤ val l := by
+  intro path
+  induction path with
+  | nil => intro l _ h; simp at h
+  | cons a tl ih =>
+    intro l hh hl n hn
+    cases tl with
+    | nil =>
+      simp at hl hn; subst hl; subst hn; exact Nat.le_refl _
+    | cons b tl' =>
+      have hl' : (b :: tl').getLast? = some l := by simpa using hl
+      rcases List.mem_cons.mp hn with e | e
+      · subst e
+        exact Nat.le_trans hh.1 (ih l hh.2 hl' b (by simp))
+      · exact ih l hh.2 hl' n e
+
+/-- Encode(x, y, t) against Decode(x, y, t) for one leaf -/
+theorem query_sync (w h x y t : Nat) (ht : t ≤ sentinel) (se : TTEnc) (sd : TTDec) (rest : List Bool)
+    (hinv : Inv se sd) (hheap : GlobalHeap se.val (ttNumLevels w h)) :
+    ∃ sd' r, sd.decode w h x y t ((se.encode w h x y t).2 ++ rest) = some (sd', r, rest) ∧
+      Inv (se.encode w h x y t).1 sd' ∧ (se.encode w h x y t).1.val = se.val ∧
+      (se.val (0, x, y) < t → r = se.val (0, x, y)) ∧
+      (r = se.val (0, x, y) ∨ (r = sentinel ∧ t ≤ se.val (0, x, y))) := by
+  obtain ⟨sd', hd, hinv', hval, hres⟩ :=
+    path_sync t ht (ttPath w h x y) se sd 0 rest hinv (heapPath_ttPath se.val w h x y hheap) (fun n _ => Nat.zero_le _)
+  have hr := hres (0, x, y) (ttPath_last w h x y)
+  refine ⟨sd', sd'.val (0, x, y), ?_, hinv', hval, hr.1, hr.2⟩
+  unfold TTDec.decode TTEnc.encode
+  rw [hd]
+
+/-- a zero-bit-plane style query: the encoder uses threshold `te`, the decoder `td`; if the value is below both,
+    the decoder obtains it and both stay in lock step -/
+theorem query_sync_thr (w h x y te td : Nat) (htd : td ≤ sentinel) (se : TTEnc) (sd : TTDec) (rest : List Bool)
+    (hinv : Inv se sd) (hheap : GlobalHeap se.val (ttNumLevels w h))
+    (hv1 : se.val (0, x, y) < te) (hv2 : se.val (0, x, y) < td) :
+    ∃ sd', sd.decode w h x y td ((se.encode w h x y te).2 ++ rest) = some (sd', se.val (0, x, y), rest) ∧
+      Inv (se.encode w h x y te).1 sd' ∧ (se.encode w h x y te).1.val = se.val := by
+  have hhp := heapPath_ttPath se.val w h x y hheap
+  have hle := heap_le_last se.val (ttPath w h x y) (0, x, y) hhp (ttPath_last w h x y)
+  have heq : se.encode w h x y te = se.encode w h x y td := by
+    unfold TTEnc.encode
+    apply encodePath_thr te td (ttPath w h x y) se 0 _ hhp (fun n _ => Nat.zero_le _) (ttPath_nodup w h x y)
+    intro n hn
+    have := hle n hn
+    exact ⟨by omega, by omega, (hinv n).1⟩
+  rw [heq]
+  obtain ⟨sd', r, hd, hinv', hval, hr1, _⟩ := query_sync w h x y td htd se sd rest hinv hheap
+  refine ⟨sd', ?_, hinv', hval⟩
+  rw [hd, hr1 hv2]
+
 end J2kTT
